@@ -52,6 +52,11 @@ ASSUMPTIONS = [
     "constraint rows are compared as sets matched on (type, Jacobian row, pos, D, aref)",
     "put_model raising NotImplementedError is the documented gate (doc/mjx.rst Feature Parity: 'MJX will raise an "
     "exception if asked to copy an mjModel to the device that references unsupported features') and is counted, not judged",
+    "implicitfast: the C engine restricts the velocity-derivative matrix D to the sparsity pattern of M (computation/index.rst, "
+    "Integrators: 'This restriction will exclude damping in tendons which connect bodies that are on different branches of the "
+    "kinematic tree'), MJX's dense update keeps the full D. A next-state difference is counted as "
+    "documented_difference_not_judged[...] only if C's update recomputed WITH the excluded entries (from C's own actuator moments "
+    "and tendon Jacobians; formula validated to reproduce mj_implicit to 1e-9) reproduces MJX's next state at the field tolerance",
     "contact-set equality is judged only for geom pairs whose narrow phase is the same closed-form algorithm in both engines "
     "(calibrated empirically on the unchanged tree: plane-sphere, plane-capsule, plane-ellipsoid, sphere-sphere, "
     "sphere-capsule, capsule-capsule). Pairs involving boxes (doc/mjx.rst: 'BOX is implemented as a mesh': SAT/clipping "
@@ -144,9 +149,13 @@ def _contact_excluded_pair(mj, m, g1, g2):
     return frozenset((int(m.geom_type[g1]), int(m.geom_type[g2]))) not in exact
 
 
+_CMATCH = {"last": None}    # C contact index -> MJX contact index of the last fully matched contact comparison
+
+
 def _compare_contacts(R, m, dc, dxf, tol, P, sig_prefix):
     """Returns (ok_for_efc, problems). Contacts as sets."""
     mj = R.mujoco
+    _CMATCH["last"] = None
     c = dxf._impl.contact
     xd = np.asarray(c.dist)
     xim = np.asarray(c.includemargin)
@@ -211,6 +220,7 @@ def _compare_contacts(R, m, dc, dxf, tol, P, sig_prefix):
     if frames_differ and not problems:
         P.count("states_with_different_contact_tangent_frame")
         return None, problems
+    _CMATCH["last"] = match if not problems else None
     return (not problems), problems
 
 
@@ -228,7 +238,10 @@ def _efc_row_meta(mj, m, dc, i):
     return meta
 
 
-def _compare_efc(R, m, dc, dxf, tol, tol_s, P):
+def _compare_efc(R, m, dc, dxf, tol, tol_s, P, cmatch=None):
+    """Constraint rows as sets. Rows of a contact can only be matched to rows of the MJX contact it was matched with
+    (`cmatch`): torsional / rolling rows of two contacts of the same body against the same plane have IDENTICAL Jacobians, and
+    matching them across contacts would book one contact's values against the other's."""
     mj = R.mujoco
     problems = []
     nv = m.nv
@@ -256,10 +269,20 @@ def _compare_efc(R, m, dc, dxf, tol, tol_s, P):
     xforce = np.asarray(I.efc_force)
     used = set()
     Jscale = max(1.0, np.abs(J).max() if J.size else 1.0)
+    T = mj.mjtConstraint
+    contact_types = (int(T.mjCNSTR_CONTACT_FRICTIONLESS), int(T.mjCNSTR_CONTACT_PYRAMIDAL), int(T.mjCNSTR_CONTACT_ELLIPTIC))
+    xadr, xdim = np.asarray(I.contact.efc_address), np.asarray(I.contact.dim)
+
+    def rows_of_mjx_contact(c, t):
+        n = 1 if (t == contact_types[0] or xdim[c] == 1) else (int(xdim[c]) if t == contact_types[2] else 2 * (int(xdim[c]) - 1))
+        return set(range(int(xadr[c]), int(xadr[c]) + n))
     for i in cact:
         best, bj = None, None
+        allowed = None
+        if cmatch is not None and int(dc.efc_type[i]) in contact_types and int(dc.efc_id[i]) in cmatch:
+            allowed = rows_of_mjx_contact(cmatch[int(dc.efc_id[i])], int(dc.efc_type[i]))
         for j in xact:
-            if j in used or int(xtype[j]) != int(dc.efc_type[i]):
+            if j in used or int(xtype[j]) != int(dc.efc_type[i]) or (allowed is not None and int(j) not in allowed):
                 continue
             dd = np.max(np.abs(xJ[j] - J[i])) / Jscale
             for k in feats:   # set equality of full row tuples: every compared quantity takes part in the matching
@@ -345,7 +368,7 @@ def _compare_state(R, m, mx, dcf, dcs, dxf, dxs, x64, P, smap, integ):
     if nact:
         tol_s = max(tol_s, TOL_CONTACT_DOWNSTREAM)
     if contact_dependent_ok and ok_c:
-        problems += _compare_efc(R, m, dcf, dxf, max(tol, TOL_CONTACT_GEOM) if nact else tol, tol_s, P)
+        problems += _compare_efc(R, m, dcf, dxf, max(tol, TOL_CONTACT_GEOM) if nact else tol, tol_s, P, cmatch=_CMATCH["last"])
     xsens = np.asarray(dxf.sensordata)
 
     def sens(i, nm, stage, adr, dim, t):
@@ -497,6 +520,7 @@ def check_model(R, xml, tags, states, P, x64=True, detail_base=None):
                 and (dcf.nefc == 0 or (np.all(np.isfinite(dcf.efc_force)) and np.abs(dcf.efc_force).max() < 1e6))):
             P.count("skipped_c_engine_unstable")
             continue
+        _count_engaged(mj, m, dcf, P)
         try:
             dxf, dxs = fs(mx, dx)
             R.jax.block_until_ready(dxs.qpos)
@@ -534,7 +558,6 @@ def check_model(R, xml, tags, states, P, x64=True, detail_base=None):
             P.count("states_with_constraint_rows")
         P.note_max("active_contacts", nact)
         P.note_max("nefc", nrow)
-        _count_engaged(mj, m, dcf, P)
         if not problems:
             continue
         P.count("states_with_differences")
@@ -562,6 +585,9 @@ def check_model(R, xml, tags, states, P, x64=True, detail_base=None):
                     P.count("reference_skew_wheel_vs_tree[%s]" % name.split("[")[0])
                     continue
             cause = _attribute(name, det, causes, cf, P)
+            if cause is not None and cause.startswith("documented:"):
+                P.count("documented_difference_not_judged[%s]" % cause[11:])
+                continue
             if cause is not None:
                 sig = cause
             if sig in seen:
@@ -758,6 +784,7 @@ class _Counterfactuals:
          c_hook(m, d)          edit mjData between mj_fwdAcceleration and mj_fwdConstraint of every forward evaluation
          c_delta  (nv x nv)    add to the velocity-derivative matrix D of C's Euler / implicitfast velocity update
          mjx_data(dx) -> dx    edit MJX's input data            mjx_model(mx) -> mx    edit MJX's model
+         mjx_rebuild() -> (mx, dx)   MJX model/data rebuilt from an edited MjModel (applied first)
        remaining(specs) -> set of _pkey of the differences that SURVIVE the counterfactual (None if it cannot be run)."""
 
     def __init__(self, R, m, mx, st, dx, base, x64, smap, integ, P, get_tree=None):
@@ -848,6 +875,10 @@ class _Counterfactuals:
         mx2, dx2 = self.mx, self.dx
         changed = False
         for s in specs:
+            if "mjx_rebuild" in s:
+                mx2, dx2 = s["mjx_rebuild"]()
+                changed = True
+        for s in specs:
             if "mjx_model" in s:
                 mx2, changed = s["mjx_model"](mx2), True
             if "mjx_data" in s:
@@ -886,6 +917,24 @@ def _attribute(name, det, causes, cf, P):
     for c in inscope:
         P.count("in_scope_but_not_confirmed[%s]" % c["sig"])
     return None
+
+
+def _tree_pattern(m):
+    """sparsity pattern of the C engine's inertia matrix: dof pairs in ancestor relation"""
+    pat = np.zeros((m.nv, m.nv), bool)
+    for i in range(m.nv):
+        k = i
+        while k >= 0:
+            pat[i, k] = pat[k, i] = True
+            k = int(m.dof_parentid[k])
+    return pat
+
+
+def mjx_sparse(R, m):
+    try:
+        return bool(R.src["support"].is_sparse(m))
+    except Exception:
+        return False
 
 
 def _scope(fields=(), step=(), sensors=(), efc=None):
@@ -951,6 +1000,24 @@ def _known_causes(R, m, mx, st, dcf, dcs, dxf, dxs, cf):
             "scope": _scope(fields=["actuator_velocity"], sensors=[S.mjSENS_ACTUATORVEL]),
             "root": lambda name, det: allzero(det["c"]),
         })
+    if off(D.mjDSBL_ACTUATION) and m.na:
+        alim = np.zeros(m.na, bool)
+        arng = np.zeros((m.na, 2))
+        for i in range(m.nu):
+            if int(m.actuator_actadr[i]) >= 0 and m.actuator_actlimited[i]:
+                j = int(m.actuator_actadr[i]) + int(m.actuator_actnum[i]) - 1
+                alim[j], arng[j] = True, m.actuator_actrange[i]
+        act0 = np.array(st["act"], float)
+
+        def act_root(name, det):
+            c, x = np.asarray(det["c"], float), np.asarray(det["mjx"], float)
+            # the C engine does not touch act; MJX equals it except where it clamped a limited activation into its actrange
+            return bool(np.array_equal(c, act0) and np.all((x == c) | (alim & (np.abs(x - np.clip(c, arng[:, 0], arng[:, 1])) <= 1e-12))))
+        out.append({
+            "sig": "activations-clamped-to-actrange-although-actuation-disabled",
+            "scope": _scope(step=["act"]),
+            "root": act_root,
+        })
     # 3. public field qfrc_fluid never written ---------------------------------------------------------------------------
     if float(m.opt.density) > 0 or float(m.opt.viscosity) > 0:
         out.append({
@@ -986,6 +1053,57 @@ def _known_causes(R, m, mx, st, dcf, dcs, dxf, dxs, cf):
                                 + ACT_FRC + ACC_BODY),
                 # give MJX the flag that the world-frame test yields at this state; everything must then agree with C
                 "spec": {"mjx_model": lambda mx_, truth=truth: mx_.tree_replace({"_impl.is_wrap_inside": truth})},
+            })
+    # 4b. tendon armature: coupling between dofs of DIFFERENT branches --------------------------------------------------------
+    if m.ntendon and np.any(np.array(m.tendon_armature) > 0) and not mjx_sparse(R, m):
+        tj = np.zeros((m.ntendon, m.nv))
+        try:
+            mj.mju_sparse2dense(tj, dcf.ten_J, m.ten_J_rownnz, m.ten_J_rowadr, m.ten_J_colind)
+        except Exception:
+            tj = np.array(dcf.ten_J).reshape(m.ntendon, m.nv)
+        full = sum(float(m.tendon_armature[t]) * np.outer(tj[t], tj[t]) for t in range(m.ntendon))
+        dropped = full * ~_tree_pattern(m)
+        if np.any(np.abs(dropped) > 0):
+            def rebuild():
+                import copy
+                from .. import mjxrepo
+                m2 = copy.copy(m)
+                m2.opt.jacobian = int(mj.mjtJacobian.mjJAC_SPARSE)
+                mx2 = R.mjx.put_model(m2)
+                d2 = mj.MjData(m2)
+                mjxrepo.set_state_dict(m2, d2, st)
+                return mx2, _to_mjx_data(R, m2, mx2, d2)
+            out.append({
+                "sig": "dense-M-keeps-tendon-armature-coupling-between-branches-that-the-C-engine-drops",
+                "scope": _scope(fields=["M", "qacc_smooth", "qacc", "qfrc_constraint", "qfrc_bias", "qfrc_smooth", "efc-row-count"],
+                                step=["qpos", "qvel"], sensors=ACC_BODY + ACT_FRC,
+                                efc=lambda name, det: name in ("efc_force", "efc_D", "efc_aref")),
+                # root (M itself): MJX - C is exactly the out-of-pattern part of sum_t armature_t J_t^T J_t
+                "root": lambda name, det: name == "M" and _relerr(np.asarray(det["mjx"], float) - np.asarray(det["c"], float), dropped)
+                <= max(tolof(det), 1e-6),
+                # downstream: MJX with the sparse inertia-matrix layout (which restricts J^T A J to M's pattern like C) must agree
+                "spec": {"mjx_rebuild": rebuild},
+            })
+    # 4c. violated tendon limit on a tendon with an all-zero Jacobian ------------------------------------------------------
+    if m.ntendon and not off(D.mjDSBL_LIMIT) and not off(D.mjDSBL_CONSTRAINT):
+        tj0 = np.zeros((m.ntendon, m.nv))
+        try:
+            mj.mju_sparse2dense(tj0, dcf.ten_J, m.ten_J_rownnz, m.ten_J_rowadr, m.ten_J_colind)
+        except Exception:
+            tj0 = np.array(dcf.ten_J).reshape(m.ntendon, m.nv)
+        ln, rg, mg = np.array(dcf.ten_length), np.array(m.tendon_range), np.array(m.tendon_margin)
+        stuck = [t for t in range(m.ntendon) if m.tendon_limited[t] and not np.any(tj0[t] != 0)
+                 and min(ln[t] - rg[t, 0], rg[t, 1] - ln[t]) < mg[t]]
+        c_has_row = any(int(dcf.efc_type[i]) == int(T.mjCNSTR_LIMIT_TENDON) and int(dcf.efc_id[i]) in stuck for i in range(int(dcf.nefc)))
+        if stuck and not c_has_row:
+            wide = np.array(m.tendon_range, float)
+            for t in stuck:
+                wide[t] = [-1e6, 1e6]
+            out.append({
+                "sig": "violated-limit-of-tendon-with-zero-jacobian-kept-as-row-and-stalls-solver",
+                "scope": _scope(fields=["qacc", "qfrc_constraint"], step=["qpos", "qvel"], sensors=ACC_BODY, efc=any_efc_force),
+                # MJX with that limit made unreachable (the C engine skips constraints whose Jacobian is empty) must agree with C
+                "spec": {"mjx_model": lambda mx_, wide=wide: mx_.replace(tendon_range=jp.array(wide, dtype=mx_.tendon_range.dtype))},
             })
     # 5. actearly ignored -------------------------------------------------------------------------------------------------
     early = np.array(m.actuator_actearly).astype(bool) & (np.array(m.actuator_dyntype) != int(mj.mjtDyn.mjDYN_NONE)) \
@@ -1098,6 +1216,33 @@ def _known_causes(R, m, mx, st, dcf, dcs, dxf, dxs, cf):
                 if gv != 0.0:
                     # C has the muscle force-velocity slope in qDeriv, MJX has no muscle term at all
                     d_muscle -= gv * np.outer(mom[i], mom[i])
+        # documented approximation of the C engine (computation/index.rst, Integrators: "we restrict D to have the same sparsity
+        # pattern as M ... This restriction will exclude damping in tendons which connect bodies that are on different branches"):
+        # MJX's dense update keeps those entries. Not a finding: such a step is judged against C's update WITH the excluded
+        # entries put back (independently recomputed from C's moments / tendon Jacobians, formula validated against mj_implicit)
+        notpat = ~_tree_pattern(m)
+        d_off = np.zeros((m.nv, m.nv))
+        for i in range(m.nu):
+            aadr = int(m.actuator_actadr[i])
+            ca_i = float(dcf.act[aadr + int(m.actuator_actnum[i]) - 1]) if aadr >= 0 and int(m.actuator_dyntype[i]) != int(mj.mjtDyn.mjDYN_NONE) \
+                else float(dcf.ctrl[i])
+            v_i = (float(m.actuator_biasprm[i, 2]) if int(m.actuator_biastype[i]) == int(mj.mjtBias.mjBIAS_AFFINE) else 0.0) + \
+                (float(m.actuator_gainprm[i, 2]) * ca_i if int(m.actuator_gaintype[i]) == int(mj.mjtGain.mjGAIN_AFFINE) else 0.0)
+            d_off += v_i * np.outer(mom[i], mom[i]) * notpat
+        if m.ntendon and not off(D.mjDSBL_DAMPER):
+            tjd = np.zeros((m.ntendon, m.nv))
+            try:
+                mj.mju_sparse2dense(tjd, dcf.ten_J, m.ten_J_rownnz, m.ten_J_rowadr, m.ten_J_colind)
+            except Exception:
+                tjd = np.array(dcf.ten_J).reshape(m.ntendon, m.nv)
+            for t in range(m.ntendon):
+                d_off -= float(m.tendon_damping[t]) * np.outer(tjd[t], tjd[t]) * notpat
+        if np.any(d_off != 0) and not mjx_sparse(R, m):
+            out.append({
+                "sig": "documented:implicitfast-C-restricts-qDeriv-to-the-sparsity-pattern-of-M",
+                "scope": _scope(step=["qpos", "qvel"]),
+                "spec": {"c_delta": d_off},
+            })
         if np.any(d_skew != 0):
             cf.skew_delta = d_skew
             # 12. raw (unclamped) ctrl in MJX's d(force)/d(velocity): a damper-like actuator driven outside its ctrlrange becomes
@@ -1148,7 +1293,7 @@ def worker(case):
         states = mjxrepo.capcap_states(R, rng, m, R.mujoco.MjData(m), case["nstates"])
     else:
         xml, tags = mjxrepo.gen_model(rng, case["profile"], small=case.get("small", False),
-                                      integrator=case.get("integrator"), want=case.get("want", ()))
+                                      integrator=case.get("integrator"), want=case.get("want", ()), cone=case.get("cone"))
         states = None
     if states is None:
         try:
@@ -1176,6 +1321,9 @@ def _cases(ctx):
         prof = profs[i % len(profs)]
         cases.append({"key": int(core.stable_hash("C43", ctx.seed, i)), "profile": prof, "x64": (i % 8) != 7,
                       "want": agenda.get(i, []),
+                      # elliptic cones without a frictional candidate contact raise in MJX (known finding) and the model is
+                      # lost: contact-free profiles use the pyramidal cone except for one model per tier that keeps exhibiting it
+                      "cone": "pyramidal" if (prof in ("constrained", "smooth") and i != 1) else None,
                       "nstates": ctx.pick(2, 3), "small": ctx.quick or i % 2 == 0,
                       "integrator": "RK4" if i % 10 == 9 else (None if not ctx.quick else ["Euler", "implicitfast"][i % 2])})
     # capsule-capsule pairs in clipped segment-segment configurations (the narrow phase's clip-then-refine branch): two pairs
